@@ -70,6 +70,13 @@ CHECKS = {
         "Continuous-domain claim: only the grid is decided. SLSQP inside scipy is part of the code under test, not trusted.",
         "5/C14",
     ),
+    "C06": (
+        "model_checking",
+        "bounded exhaustive enumeration of parameter dependency graphs x data patterns x calibration factors x limits x programs x scenarios on the real simulator; every trace of the reference recomputation replayed against the implementation at every parameter, population and time index",
+        "All dependency-graph shapes named in the property (chain, diamond, fan, functions of compartments/characteristics/time, cross-population aggregation, flow-dependent output parameters) are enumerated with every combination of data pattern, factor, limit, program and scenario setting; the independent reference (data -> factors -> function -> program -> aggregation -> limits) is compared with the result for every parameter at every index.",
+        "Reading of the statement recorded in the evidence assumptions (calibration factors also multiply function values). Reference in mc/refsim.py.",
+        "5/C06",
+    ),
 }
 
 PENDING_REASON = "check not built yet in this session (see DESIGN.md section 8 for the build order); no claim is made"
